@@ -84,6 +84,13 @@ def cases(tier):
     for uname in ("times", "plus", "transform", "solve"):
         out.append((fn.replace("function f ", "function %s " % uname).replace("end f;", "end %s;" % uname).replace("f(x, 3)", "%s(x, 3)" % uname),
                     {"x": 1.5, "y": 0.0}, [-((1.5 + 3) * 2 - 1.5)], "user function named like a CasADi function (%s)" % uname))
+    # declaration values of function variables are evaluated before the algorithm section; an input's default does not override an argument
+    fd = ("function acc input Real a; output Real y := 10; algorithm y := y + a; end acc; model M Real x; Real y; equation y = acc(x); x = 0; end M;")
+    out.append((fd, {"x": 1.5, "y": 0.0}, [-(10 + 1.5)], "function output with a declaration value read by the body"))
+    fp = ("function sc input Real a; output Real y; protected Real d := 2 * a; algorithm d := d + 1; y := d * a; end sc; model M Real x; Real y; equation y = sc(x); x = 0; end M;")
+    out.append((fp, {"x": 1.5, "y": 0.0}, [-((2 * 1.5 + 1) * 1.5)], "protected variable with a declaration value, reassigned"))
+    fi = ("function sg input Real a; input Real gain = 2; output Real y; algorithm y := gain * a + a / 2; end sg; model M Real x; Real y; equation y = sg(x, 5); x = 0; end M;")
+    out.append((fi, {"x": 1.5, "y": 0.0}, [-(5 * 1.5 + 0.75)], "defaulted input passed explicitly"))
     f1 = ("function transform input Real a; output Real r; algorithm r := 3 * a + 1; end transform; model M Real x; Real y; equation y = transform(x); x = 0; end M;")
     out.append((f1, {"x": 2.0, "y": 0.0}, [-7.0], "one-argument user function named like a CasADi function"))
     # for-statement in a function whose body statements depend on each other: iteration by iteration, statement by statement
@@ -150,7 +157,7 @@ def main():
                 break
     if payload.get("mode") == "bounded":
         print(json.dumps({"performed": True, "cases": n, "distinct_nontrivial": n, "failures": failures,
-                          "rule": "one real model per operator (+ - * / ^, relations incl. <>, not/and/or, min/max/abs, elementary functions) at several points, if-expressions and if-equations with 3 conditions evaluated where 0..3 of them hold, for-loops over stepped / descending ranges, element-wise operators, indexing, slices, a user function with an algorithm section (also under names the casadi module uses itself), for-statements whose body statements depend on each other, if-statements, discarded function outputs, for-equations over several indexed arrays, der() as independent input, der() of expressions over vector states with and without function inlining; the first residual rows are compared with a Python reference",
+                          "rule": "one real model per operator (+ - * / ^, relations incl. <>, not/and/or, min/max/abs, elementary functions) at several points, if-expressions and if-equations with 3 conditions evaluated where 0..3 of them hold, for-loops over stepped / descending ranges, element-wise operators, indexing, slices, declaration values of function outputs / protected variables / defaulted inputs, a user function with an algorithm section (also under names the casadi module uses itself), for-statements whose body statements depend on each other, if-statements, discarded function outputs, for-equations over several indexed arrays, der() as independent input, der() of expressions over vector states with and without function inlining; the first residual rows are compared with a Python reference",
                           "bound": "%d model/point pairs" % n}))
     else:
         f = failures[0] if failures else None
